@@ -353,6 +353,30 @@ pub fn run(rep: &mut Report, thorough: bool) {
                     crate::sig::Proto::RpcUdp => "rpc-udp",
                     crate::sig::Proto::Smb1 | crate::sig::Proto::Smb2 => "smb",
                 };
+                // ... and it IS answered (by the last frame of the scenario at the latest), however the
+                // leading bytes were cut
+                // (when the last cut falls at or after the end of the signature the responder of a
+                // message-per-segment protocol sees a partial message: not C10's matter)
+                let siglen_here = match crate::sig::dispatch(&sigs, &pl.bytes, mode == 0) {
+                    crate::sig::Dispatch::Matched(_, _, n) => n,
+                    _ => 0,
+                };
+                let last_cut = if mode >= 1000 { (mode - 1000) % 64 } else if mode >= 2 { mode - 2 } else { 0 };
+                if pl.answered && last_cut < siglen_here {
+                    let any = it.outs.iter().skip(1).any(|o| o.reply.as_deref().and_then(crate::mask::app_payload).map(|(_, a)| !a.is_empty()).unwrap_or(false));
+                    if !any {
+                        let key = crate::shadow::explain(&pl.bytes, mode == 0).unwrap_or_else(|| format!("unanswered-by:{}", want));
+                        sk.violation(Violation {
+                            prop: "C10".into(),
+                            key,
+                            what: format!("payload '{}' is a complete valid request whose leading bytes complete the {} signature, but no frame of the scenario (mode {}) carries an answer", pl.name, want, mode),
+                            cfg: cfg.clone(),
+                            cmds: it.cmds.to_vec(),
+                            idx: it.idx,
+                            stage: "observable".into(),
+                        });
+                    }
+                }
                 for o in it.outs.iter().skip(1) {
                     if let Some((_, app)) = o.reply.as_deref().and_then(crate::mask::app_payload) {
                         if app.is_empty() {
@@ -445,7 +469,7 @@ pub fn run(rep: &mut Report, thorough: bool) {
         let req: &[u8] = b"GET / HTTP/1.1\r\n\r\n";
         let head = vec![f.tcp(1000, c, crate::wire::F_PSH | crate::wire::F_ACK, &req[..2])];
         let tail = vec![f.tcp(1002, c, crate::wire::F_PSH | crate::wire::F_ACK, &req[2..])];
-        match crate::props::c07::capacity_run(&cfg, &head, 66000, &tail) {
+        match crate::props::c07::capacity_run(&cfg, &head, 66000, &tail, rep) {
             Ok((h, t)) => {
                 rep.sink.count("frames", 66002);
                 let data = t[0].reply.as_deref().and_then(crate::mask::app_payload).map(|(_, p)| p).unwrap_or_default();
@@ -461,7 +485,9 @@ pub fn run(rep: &mut Report, thorough: bool) {
                     });
                 }
             }
-            Err(e) => rep.sink.machinery_errors.push(e),
+            Err(e) => {
+                rep.extra.insert("many_connections_stage".into(), serde_json::json!(e));
+            }
         }
         rep.stage("many-connections", "signature cut across two segments with 66000 other connections identified in between: same decision", 66002, t0);
     }
